@@ -13,6 +13,18 @@ CHECKS = {
    note="Trusted: the hook placement (events emitted under the lock that protects the state they report; anonymous hooks attributed by goroutine id), the loopback OS model, TLC. Bounded: small constants in the exhaustive run; sampled histories in the trace runs (30 histories x ~15 operations quick, 600 thorough). The 24h reserved-port expiry is not exercised.",
    technique="TLA+ spec FrpsPorts model-checked with TLC + trace validation of real frps executions (Trace_FrpsPorts)",
    design="4 (C09), 3.1"),
+ "C12": dict(
+   level="model_checking",
+   text="TLC exhaustively checks FrpsSessions (login verify, session-table replace / wait-closed / delete-if-same, teardown, name ownership; 3 login attempts on one run id: 4.5M states quick, 2 run ids: 59M states thorough) against OneLivePerName, AckAfterOldGone, RunIdMeansNewest, NewestStaysUntilClosed and the C04 invariants; recorded executions of the real frps under scripted re-logins (single, two at once, with the old session's teardown parked at a gate), registrations, closes and drops are validated against Trace_FrpsSessions; the real proxy.Manager name table is additionally hammered by 16 goroutines and its recorded history validated against Trace_NameTable.",
+   note="Trusted: hook placement at linearization points, TLC. 'Unpredictable run id' is outside the model (freshness of generated ids is checked: a fresh login never receives an id in use). Histories are sampled.",
+   technique="TLA+ spec FrpsSessions model-checked with TLC + trace validation of real frps executions (Trace_FrpsSessions, Trace_NameTable)",
+   design="4 (C12), 3.2"),
+ "C04": dict(
+   level="model_checking",
+   text="Same specification FrpsSessions: SessionOnlyIfAuthenticated, BypassOnlyInternal, RefusedLeavesNoState, TableOnlyAuthenticated exhaustively checked by TLC; the real frps is driven by scripted peers over {valid key, wrong key, stale timestamp, always_auth_pass claim} x {network listener, internal listener}, valid/invalid pings and work connections with known/unknown/stale run ids under random scope subsets; every verifier choice, login decision, heartbeat refresh (read from the session's clock), work-connection admission and table snapshot is compared with the specification in Trace_FrpsSessions.",
+   note="Trusted: hook placement, TLC. Key validity is an attribute (hash strength not modelled); token method only (OIDC not driven); plain-tcp and internal listeners driven (kcp/quic/websocket/tls share handleConnection).",
+   technique="TLA+ spec FrpsSessions model-checked with TLC + trace validation of real frps executions (Trace_FrpsSessions)",
+   design="4 (C04), 3.2"),
 }
 
 hooks_commits = subprocess.run("git -C /repo log --format=%h --grep='^verif:' --reverse", shell=True, capture_output=True, text=True).stdout.split()
